@@ -192,6 +192,18 @@ def scenario(args):
             elif "err" in st and transport != "reliable":
                 bad.append(("send-failed", f"send of {n} bytes returned {st}"))
             s.op(f"run {rng.choice([5, 50, 400])}")
+        if transport == "reliable" and rng.random() < 0.6:
+            # several messages in ONE nice_agent_send_messages_nonblocking call, large enough to exhaust the pseudo-TCP send
+            # buffer inside the call: the messages reported as accepted (and only those) must appear in the stream, whole
+            for _ in range(rng.randint(2, 5)):
+                spec = [(rng.choice([50000, 50000, 30000, 46000, 1000, 89000]), rng.randrange(200)) for _ in range(rng.randint(2, 4))]
+                st = s.op("sendm A 1 1 " + "/".join(f"{n}:{sd}" for n, sd in spec))[1]
+                mret = re.match(r"ok ret (-?\d+)", st)
+                k = int(mret.group(1)) if mret else -1
+                for n, sd in spec[:max(k, 0)]:
+                    sent_msgs.append(bytes((sd * 31 + j * 13) & 0xff for j in range(n)))
+                s.op(f"run {rng.choice([50, 2000, 6000])}")
+            s.op("run 8000")
         if pressure:
             for _ in range(6):          # kernel TCP with tiny buffers needs real time to drain
                 s.op("settle 3000")
